@@ -392,7 +392,10 @@ func runC04(c *kit.Ctx) {
 	embed(c, "R6", "a failing connection fails every request on it with a connection-level error, so that it is retried elsewhere (the rules of C03, run as one rule here)", 30, runC03)
 
 	// ---- R5 ---------------------------------------------------------------
+	publishedRegionGetsItsEstablisher(c)
+
 	c.StartRule("R5", "TableNotFound is not retried", 2)
+	lookupAttemptsHaveTheirOwnTimeout(c)
 	tnf := p.Global("", "TableNotFound")
 	for _, fn := range []*ssa.Function{lr, lar} {
 		good := false
